@@ -132,9 +132,10 @@ Lemma match_ref_length : forall pw x y xr yr m rt rr res, length x = length y ->
   match_ref pw x y xr yr m rt rr = Ok res -> length res = length y.
 Proof.
   intros pw x y xr yr m rt rr res Hxy H. unfold match_ref in H.
-  destruct (resolve_fixed x xr m) as [fr|e]; cbn [bind] in H; [|discriminate].
-  destruct (integral xr yr rr) as [iv|e]; cbn [bind] in H; [|discriminate].
-  eapply interval_match_length; eassumption.
+  destruct rt; [| |discriminate].
+  all: destruct (resolve_fixed x xr m) as [fr|e]; cbn [bind] in H; [|discriminate].
+  all: destruct (integral xr yr rr) as [iv|e]; cbn [bind] in H; [|discriminate].
+  all: eapply interval_match_length; eassumption.
 Qed.
 
 (** ---------- index_of ---------- *)
